@@ -254,7 +254,8 @@ class C01(Prop):
   rule = ('histories: 1-3 constructions from nested values (Dict/List/2 Object classes, depth <= 4, '
           'width <= 4, flags, shared sub-objects) followed by 1-40 operations drawn from the whole '
           'mutator surface of pg.Dict / pg.List / pg.Object (item and attribute assignment and '
-          'deletion, every list and dict mutator incl. the in-place operators, slice assignment, rebind '
+          'deletion, every list and dict mutator incl. the in-place operators, slice assignment and slice deletion '
+          '(any start / stop / step incl. negative and zero steps, extended slices with and without matching sizes), seal / unseal, rebind '
           'with 0-3 paths incl. Insertion and MISSING, clone, construction), state-relative targets, '
           'boundary-biased indices (len+d, -len+d), existing nodes offered as values (relocate-or-copy), '
           'change notification off in 0/25/90 % of the calls of a history. Non-trivial: at least 3 '
